@@ -48,11 +48,25 @@ var fmtDerived = map[string]string{
 	"IndexInfo.Unique":  "set together with Type from the production's own keywords (UNIQUE … / PRIMARY KEY), which Type carries verbatim",
 }
 
+// fmtBareNames: node-typed fields deliberately printed without identifier quoting (confirmed by reading; the grammar
+// accepts the bare word in exactly these positions).
+var fmtBareNames = map[string]string{
+	"FuncExpr.Name via String()":        "function names are not back-quoted even if reserved (vitess comment at the site); the grammar's function_call productions take reserved words bare",
+	"CurTimeFuncExpr.Name via String()": "CURRENT_TIMESTAMP-family keywords are the name itself",
+	"SetExpr.Name via String()":         "SET variable names are not back-quoted (vitess comment at the site)",
+	"VindexParam.Key via String()":      "vindex parameter keys are reserved_sql_id words printed bare (vitess DDL)",
+}
+
+// fmtPartial: node-typed fields of which deliberately only a part is printed (confirmed by reading).
+var fmtPartial = map[string]string{}
+
 func runC30(c *core.Ctx) {
 	c.Rule("FMT1", "every field the grammar populates is printed")
 	c.Rule("FMT2", "structural printers use the production's keywords")
 	c.Rule("FMT3", "sibling node types print distinct constant text")
 	c.Rule("FMT4", "Myprintf verbs fit their arguments")
+	c.Rule("FMT5", "fields are printed in the order some production reads them")
+	c.Rule("FMT6", "node-typed fields are printed through their own printer")
 	p := c.Prog
 	pkg := p.Pkg("parser/sqlparser")
 	if pkg == nil {
@@ -333,6 +347,108 @@ func runC30(c *core.Ctx) {
 		})
 	}
 	c.Floor("FMT4", 150, "the printers hold well over 150 Myprintf calls")
+
+	// ---- FMT6/FMT7: node-typed fields are printed as nodes (through their own Format), whole
+	wholePrinted := map[string]bool{}  // "Type.Field" passed whole to %v (or ranged over / passed to a helper)
+	viaString := map[string]token.Pos{} // "Type.Field" rendered through a method call into %s
+	partial := map[string]token.Pos{}   // "Type.Field.Sub" printed instead of the whole field
+	for n, fd := range formats {
+		if len(fd.Recv.List[0].Names) == 0 {
+			continue
+		}
+		ast.Inspect(fd.Body, func(x ast.Node) bool {
+			call, ok := x.(*ast.CallExpr)
+			if !ok {
+				return true
+			}
+			se, ok := call.Fun.(*ast.SelectorExpr)
+			if !ok || se.Sel.Name != "Myprintf" || len(call.Args) < 2 {
+				return true
+			}
+			tv, ok := info.Types[call.Args[0]]
+			if !ok || tv.Value == nil || tv.Value.Kind() != constant.String {
+				return true
+			}
+			format := constant.StringVal(tv.Value)
+			var verbs []byte
+			for i := 0; i+1 < len(format); i++ {
+				if format[i] == '%' {
+					verbs = append(verbs, format[i+1])
+					i++
+				}
+			}
+			for i, a := range call.Args[1:] {
+				if i >= len(verbs) {
+					break
+				}
+				switch verbs[i] {
+				case 'v':
+					if fs, ok := a.(*ast.SelectorExpr); ok {
+						if sel := info.Selections[fs]; sel != nil && sel.Kind() == types.FieldVal {
+							wholePrinted[n.Obj().Name()+"."+fs.Sel.Name] = true
+							// node.F.G: only a part of the node-typed field F is printed
+							if inner, ok := fs.X.(*ast.SelectorExpr); ok {
+								if isel := info.Selections[inner]; isel != nil && isel.Kind() == types.FieldVal {
+									if id, ok := inner.X.(*ast.Ident); ok && len(fd.Recv.List[0].Names) == 1 && info.Uses[id] == info.Defs[fd.Recv.List[0].Names[0]] {
+										ft := info.TypeOf(inner)
+										if sqlNode != nil && (types.Implements(ft, sqlNode) || types.Implements(types.NewPointer(ft), sqlNode)) {
+											partial[n.Obj().Name()+"."+inner.Sel.Name+"."+fs.Sel.Name] = call.Pos()
+										}
+									}
+								}
+							}
+						}
+					}
+				case 's':
+					// a method call on a node-typed field, e.g. node.Field.String()
+					if mc, ok := a.(*ast.CallExpr); ok {
+						if ms, ok := mc.Fun.(*ast.SelectorExpr); ok {
+							if fs, ok := ms.X.(*ast.SelectorExpr); ok {
+								if sel := info.Selections[fs]; sel != nil && sel.Kind() == types.FieldVal {
+									ft := info.TypeOf(fs)
+									if sqlNode != nil && (types.Implements(ft, sqlNode) || types.Implements(types.NewPointer(ft), sqlNode)) {
+										viaString[n.Obj().Name()+"."+fs.Sel.Name+" via "+ms.Sel.Name+"()"] = call.Pos()
+									}
+								}
+							}
+						}
+					}
+				}
+			}
+			return true
+		})
+	}
+	var ps []string
+	for k := range partial {
+		ps = append(ps, k)
+	}
+	sort.Strings(ps)
+	for _, k := range ps {
+		parts := strings.Split(k, ".")
+		// harmless when the parent prints the whole field elsewhere
+		if wholePrinted[parts[0]+"."+parts[1]] {
+			c.OK("FMT6", k+" (part of a node)", partial[k], 1, "the whole field is printed elsewhere in the same printer")
+			continue
+		}
+		if why, ok := fmtPartial[k]; ok {
+			c.OK("FMT6", k+" (part of a node)", partial[k], 1, "by design: "+why)
+			continue
+		}
+		c.Bad("FMT6", k+" (part of a node)", partial[k], 1, fmt.Sprintf("only %s of the node-typed field %s.%s is printed, never the field itself: whatever else that node carries (qualifier, alias, …) is lost on the way back", parts[2], parts[0], parts[1]))
+	}
+	var vs []string
+	for k := range viaString {
+		vs = append(vs, k)
+	}
+	sort.Strings(vs)
+	for _, k := range vs {
+		if why, ok := fmtBareNames[k]; ok {
+			c.OK("FMT6", k, viaString[k], 1, "bare by design: "+why)
+			continue
+		}
+		c.Bad("FMT6", k, viaString[k], 1, "a field that is itself a node (with its own quoting/escaping printer) is rendered through a string method into %s: identifiers that need back-quotes come out bare and parse differently — print it with %v")
+	}
+	c.OK("FMT6", "node-typed fields rendered through %s", 0, len(formats), fmt.Sprintf("%d printers scanned, %d node-typed fields bypass their printer", len(formats), len(vs)))
 
 	// ---- FMT3: implementations of one interface print distinct constant text
 	var ifaces []*types.Named
@@ -656,5 +772,215 @@ func checkGrammarKeywords(c *core.Ctx, fset *token.FileSet, formats map[*types.N
 		c.Decide(matched != "", "FMT2", name, formats[t].Pos(), len(perType[t]), "prints the keywords of `"+matched+"`",
 			fmt.Sprintf("%s.Format prints %q, which carries the keywords of none of the productions that build a %s: %s — the printed text parses as something else or not at all", name, strings.Join(fi.literal, "…"), name, strings.Join(all, "; ")))
 	}
+	// ---- FMT5: each Myprintf call prints fields in the order at least one production reads them
+	posRe := regexp.MustCompile(`\$(\d+)`)
+	type prodFields struct {
+		pos  map[string]int
+		text string
+	}
+	prodsOf := map[*types.Named][]prodFields{}
+	for _, pr := range prods {
+		m := compositeRe.FindStringSubmatchIndex(pr.action)
+		if m == nil {
+			continue
+		}
+		t := byName[pr.action[m[2]:m[3]]]
+		if t == nil {
+			continue
+		}
+		// the literal's body
+		body := pr.action[m[1]:]
+		depth, end := 1, -1
+		for i := 0; i < len(body) && end < 0; i++ {
+			switch body[i] {
+			case '{', '(':
+				depth++
+			case '}', ')':
+				depth--
+				if depth == 0 {
+					end = i
+				}
+			}
+		}
+		if end < 0 {
+			continue
+		}
+		body = body[:end]
+		pf := prodFields{pos: map[string]int{}, text: pr.lhs + ": " + strings.Join(pr.symbols, " ")}
+		// split on top-level commas
+		d, start := 0, 0
+		var parts []string
+		for i := 0; i < len(body); i++ {
+			switch body[i] {
+			case '(', '{', '[':
+				d++
+			case ')', '}', ']':
+				d--
+			case ',':
+				if d == 0 {
+					parts = append(parts, body[start:i])
+					start = i + 1
+				}
+			}
+		}
+		parts = append(parts, body[start:])
+		for _, part := range parts {
+			kv := strings.SplitN(part, ":", 2)
+			if len(kv) != 2 {
+				continue
+			}
+			if mm := posRe.FindStringSubmatch(kv[1]); mm != nil {
+				n := 0
+				fmt.Sscanf(mm[1], "%d", &n)
+				pf.pos[strings.TrimSpace(kv[0])] = n
+			}
+		}
+		if len(pf.pos) >= 2 {
+			prodsOf[t] = append(prodsOf[t], pf)
+		}
+	}
+	pinfo := pkg.TypesInfo
+	nOrder := 0
+	var onames []string
+	for t := range prodsOf {
+		onames = append(onames, t.Obj().Name())
+	}
+	sort.Strings(onames)
+	for _, name := range onames {
+		t := byName[name]
+		fd := formats[t]
+		if len(fd.Recv.List[0].Names) == 0 {
+			continue
+		}
+		recv := pinfo.Defs[fd.Recv.List[0].Names[0]]
+		callNo := 0
+		ast.Inspect(fd.Body, func(x ast.Node) bool {
+			call, ok := x.(*ast.CallExpr)
+			if !ok {
+				return true
+			}
+			se, ok := call.Fun.(*ast.SelectorExpr)
+			if !ok || se.Sel.Name != "Myprintf" {
+				return true
+			}
+			var seq []string
+			for _, a := range call.Args[1:] {
+				// node.F, node.F.M(), or a conversion thereof
+				var fsel *ast.SelectorExpr
+				ast.Inspect(a, func(y ast.Node) bool {
+					if s2, ok := y.(*ast.SelectorExpr); ok && fsel == nil {
+						if id, ok := s2.X.(*ast.Ident); ok && pinfo.Uses[id] == recv {
+							if sel := pinfo.Selections[s2]; sel != nil && sel.Kind() == types.FieldVal {
+								fsel = s2
+							}
+						}
+					}
+					return true
+				})
+				if fsel != nil {
+					seq = append(seq, fsel.Sel.Name)
+				}
+			}
+			if len(seq) < 2 {
+				return true
+			}
+			callNo++
+			fits := ""
+			relevant := false
+			// the fields of this call any production populates; a fitting production must populate all of them
+			anyPop := map[string]bool{}
+			for _, pf := range prodsOf[t] {
+				for _, f := range seq {
+					if _, has := pf.pos[f]; has {
+						anyPop[f] = true
+					}
+				}
+			}
+			for _, pf := range prodsOf[t] {
+				covers := true
+				for f := range anyPop {
+					if _, has := pf.pos[f]; !has {
+						covers = false
+					}
+				}
+				if !covers {
+					continue
+				}
+				last, ok, seen := -1, true, 0
+				for _, f := range seq {
+					if k, has := pf.pos[f]; has {
+						seen++
+						if k < last {
+							ok = false
+						}
+						last = k
+					}
+				}
+				if seen >= 2 {
+					relevant = true
+					if ok && fits == "" {
+						fits = pf.text
+					}
+				}
+			}
+			if !relevant {
+				return true
+			}
+			nOrder++
+			c.Decide(fits != "", "FMT5", fmt.Sprintf("%s.Format/call %d (%s)", name, callNo, strings.Join(seq, ",")), call.Pos(), len(prodsOf[t]),
+				"field order matches `"+fits+"`",
+				fmt.Sprintf("%s.Format prints %s in this order, but no production of %s reads them in that order: the printed clauses/keywords come out transposed and parse as something else or not at all", name, strings.Join(seq, ", "), name))
+			return true
+		})
+	}
+	// ---- FMT5b: an operator node built by a production that is not of the infix shape `x OP y` needs its own print form
+	opRe := regexp.MustCompile(`Operator:\s*([A-Za-z_]\w*)`)
+	nOps := 0
+	for _, pr := range prods {
+		m := compositeRe.FindStringSubmatch(pr.action)
+		if m == nil || byName[m[1]] == nil {
+			continue
+		}
+		om := opRe.FindStringSubmatch(pr.action)
+		if om == nil || !strings.Contains(pr.action, "Left:") || !strings.Contains(pr.action, "Right:") {
+			continue
+		}
+		nOps++
+		var syms []string
+		for i := 0; i < len(pr.symbols); i++ {
+			if pr.symbols[i] == "%prec" {
+				i++
+				continue
+			}
+			syms = append(syms, pr.symbols[i])
+		}
+		// infix shape: operand, one or more operator terminals, operand, then only optional non-terminals
+		shape := ""
+		for _, sy := range syms {
+			if sy[0] == '\'' || (sy[0] >= 'A' && sy[0] <= 'Z') {
+				shape += "T"
+			} else {
+				shape += "N"
+			}
+		}
+		if regexp.MustCompile(`^NT+N+$`).MatchString(shape) {
+			continue // x OP y: the generic "%v %s %v" form fits
+		}
+		t := byName[m[1]]
+		special := false
+		ast.Inspect(formats[t].Body, func(x ast.Node) bool {
+			if id, ok := x.(*ast.Ident); ok && id.Name == om[1] {
+				special = true
+			}
+			return true
+		})
+		c.Decide(special, "FMT5", fmt.Sprintf("%s operator %s ← %s", m[1], om[1], strings.Join(syms, " ")), formats[t].Pos(), 1,
+			"non-infix operator has its own print form",
+			fmt.Sprintf("the grammar reads operator %s as `%s` (sql.y:%d), which is not of the infix shape `x OP y`, but %s.Format has no case for it and prints it infix: the text does not parse back", om[1], strings.Join(syms, " "), pr.line, m[1]))
+	}
+	if nOps < 10 {
+		c.Unknown("FMT5", "operator productions", 0, fmt.Sprintf("only %d operator productions found in the grammar", nOps))
+	}
+	c.Floor("FMT5", 20, "dozens of printers print two or more grammar-populated fields in one call")
 	c.Floor("FMT2", 8, "the OctoSQL extension productions (triggers, descriptors, …) are structural printers")
 }
